@@ -6,8 +6,8 @@
 package main
 
 import (
-	_ "embed"
 	"bytes"
+	_ "embed"
 	"fmt"
 	"go/ast"
 	"go/format"
